@@ -22,6 +22,7 @@ CHECKS["C19"] = dict(
 )
 
 CHECKS["C04"] = dict(
+    fuzz=[dict(name="FuzzC04", seconds=90)],
     test="TestC04", level="exploration",
     quick=dict(shards=8, checks=12000, timeout=300),
     thorough=dict(shards=16, checks=300000, timeout=2400, shrinktime="120s"),
@@ -41,6 +42,7 @@ CHECKS["C04"] = dict(
 )
 
 CHECKS["C08"] = dict(
+    fuzz=[dict(name="FuzzC08", seconds=120)],
     test="TestC08", level="fault_enumeration",
     quick=dict(shards=8, checks=15000, timeout=300),
     thorough=dict(shards=16, checks=400000, timeout=2400, shrinktime="120s"),
@@ -59,6 +61,7 @@ CHECKS["C08"] = dict(
 )
 
 CHECKS["C16"] = dict(
+    fuzz=[dict(name="FuzzC16", seconds=90)],
     test="TestC16", level="exploration",
     quick=dict(shards=8, checks=15000, timeout=300),
     thorough=dict(shards=16, checks=500000, timeout=2400, shrinktime="120s"),
@@ -93,6 +96,7 @@ CHECKS["C17"] = dict(
 )
 
 CHECKS["C14"] = dict(
+    fuzz=[dict(name="FuzzC14", seconds=60)],
     test="TestC14", level="exploration",
     quick=dict(shards=8, checks=6000, timeout=300),
     thorough=dict(shards=16, checks=250000, timeout=2400, shrinktime="120s"),
@@ -315,6 +319,7 @@ CHECKS["C13"] = dict(
 )
 
 CHECKS["C15"] = dict(
+    fuzz=[dict(name="FuzzC15", seconds=90)],
     test="TestC15", level="exploration",
     quick=dict(shards=8, checks=6000, timeout=300),
     thorough=dict(shards=16, checks=300000, timeout=3000, shrinktime="120s"),
